@@ -139,7 +139,7 @@ def c19(P, clnt):
     runs += clnt
     return runs
 CL9 = ["api", "ref_wire", "kit_net", "kit_clnt", "c09"]
-w("C19", {"quick": c19(1, []), "thorough": c19(2, []), "witnesses": -1,
+w("C19", {"quick": c19(1, []), "thorough": c19(2, []), "witnesses": 2,
  "outside": ["races that need more than 2 preemptions or more than 3-4 concurrent requests", "races between two instructions of harness-owned state (exempt by construction)", "workloads the statement excludes: two non-walk requests on the same fid at once, Tversion in mid-session, dropping a connection with requests outstanding"],
  "assumptions": [SCHED, "a race is two conflicting accesses by library (non-harness) code that are unordered by the Go memory model's happens-before edges (go, channel send/receive/close, Mutex, atomics) in an explored schedule; RACE findings are confirmed natively by go test -race on the same workload"],
  "rewrite_os": True})
